@@ -21,7 +21,7 @@ func init() {
 			`R13.4 every magic constant written has a reader expecting the same constant; R13.5 in package wire the byte count returned by a Read call is never discarded (a source may return 0, nil at a save point); R13.6 every success return of ReadMessage has passed msg.Reset() and the unmarshalling of the bytes just read (decoding merges, so without the reset an all-default message reads back as its predecessor). ` +
 			`R13.7 WriteMessage writes the varint length and then the marshalled bytes on every success path, empty payloads included; R13.8 every success return of WriteContext.Close has tested the writer against an interface with a Close method and, on the branch where the test held, invoked it (CompressWire hands the compressor to a WriteContext: its Close writes the final block and trailer that make the stream end). ` +
 			`R13.9 every success path of Resume stores a save state other than 'has a source checkpoint', or reaches the return through a test that shows the state is another one. ` +
-			`R13.10 reader and writer agree on message length limits; R13.11 the source DecompressWire hands to NewReadContext derives on every branch from Section(offset, size-offset) and was resumed from nil; R07.5 (shared) streams are decompressed as their own header declares. NOT decided: the round trip itself, buffer regrowth, decompressor checkpoints lagging the message offset (savior's code).`,
+			`R13.10 reader and writer agree on message length limits; R13.11 the source DecompressWire hands to NewReadContext derives on every branch from Section(offset, size-offset) and was resumed from nil; R07.5 (shared) streams are decompressed as their own header declares. R13.12 CompressWire hands back its input context only through the outcome Algorithm == NONE. NOT decided: the round trip itself, buffer regrowth, decompressor checkpoints lagging the message offset (savior's code).`,
 		Assumptions: []string{"the underlying source is the field source of wire.ReadContext"},
 		Run:         runC13,
 	})
@@ -268,6 +268,7 @@ func runC13(c *core.Ctx) {
 	ruleResumeLeavesNothingPending(c)
 	ruleReaderAcceptsWhatWriterWrites(c, "R13.10")
 	ruleDecompressedWireStartsAtZero(c, "R13.11")
+	rulePassThroughOnlyForNone(c, "R13.12")
 	ruleDecompressAsDeclared(c, "R07.5")
 
 	// ---- R13.4 magic pairing
@@ -1073,4 +1074,49 @@ func ruleDecompressedWireStartsAtZero(c *core.Ctx, rule string) {
 			"every path passes source.Resume(nil)", "on some branch the source is handed to the reader without having been resumed").Path = c.P.PathStrings(p)
 	})
 	c.Floor(rule, "readers built by DecompressWire", n, 1)
+}
+
+// rulePassThroughOnlyForNone is R13.12 (shared with C04): the reader decides whether to decompress from the
+// algorithm the header announces, and from nothing else. The writer may therefore hand back its input
+// context uncompressed only where the algorithm is NONE: every return of CompressWire whose result is the
+// context it was given is reached only through the outcome Algorithm == NONE.
+func rulePassThroughOnlyForNone(c *core.Ctx, rule string) {
+	c.Rule(rule, "the writer leaves a stream uncompressed only for the algorithm NONE")
+	fn := c.P.Fn("pwr", "CompressWire")
+	if fn == nil || len(fn.Params) == 0 {
+		c.Missing(rule, "pwr.CompressWire", "not found")
+		return
+	}
+	none := int64(-1)
+	if k, ok := c.P.LookupObj("pwr", "CompressionAlgorithm_NONE").(*types.Const); ok {
+		none, _ = constInt64(k)
+	}
+	isAlg := func(v ssa.Value) bool {
+		for _, o := range core.Origins(v) {
+			if _, n, ok := core.FieldOf(o); ok && n == "Algorithm" {
+				return true
+			}
+			if cl, ok := o.(*ssa.Call); ok && strings.HasSuffix(core.CalleeName(cl), ").GetAlgorithm") {
+				return true
+			}
+		}
+		return false
+	}
+	n := 0
+	for _, rs := range core.Returns(fn, 0) {
+		same := false
+		for _, o := range core.Origins(rs.Val) {
+			if o == ssa.Value(fn.Params[0]) {
+				same = true
+			}
+		}
+		if !same {
+			continue
+		}
+		n++
+		okN := hasGuard(rs.Ret, func(g core.Guard) bool { return relHolds(g, token.EQL, isAlg, isConstInt(none)) })
+		c.Check(okN, rule, core.FnName(fn), "the input context is handed back only for NONE", core.InstrPos(rs.Ret),
+			"reached only through the outcome Algorithm == NONE", "CompressWire can hand back its input context - write the stream uncompressed - for an algorithm other than NONE (because of the quality, say): the header announces that algorithm, DecompressWire applies its decompressor, and the stream cannot be read back")
+	}
+	c.Floor(rule, "pass-through returns of CompressWire", n, 1)
 }
